@@ -6,7 +6,43 @@ def ev_ok(names):
     return lambda e: (e.get("ev"), e.get("res"), e.get("err")) if e.get("ev") in names else None
 
 
+LEDGER_DRIVERS = [{"name": "ledger", "args": {"quick": [60, 120], "thorough": [3000, 300]}}]
+
+
+LEDGER_MODELS = [
+    {"name": "ledger", "module": "Ledger.tla", "cfg": {"quick": "MC_LedgerQuick.cfg", "thorough": "MC_LedgerThorough.cfg"},
+     "setup": "setups/ledgermodel.json", "init_from_setup": True, "timeout": {"quick": 900, "thorough": 7200}},
+]
+
+
+def succ(names):
+    names = set(names)
+    return lambda e: (e.get("ev"), json_key(e.get("a"))) if e.get("ev") in names and e.get("res") == "ok" else None
+
+
+def json_key(a):
+    import json
+    return json.dumps(a, sort_keys=True)[:160]
+
+
+def ledger_prop(extra_ops=()):
+    ops = ["deposit", "withdraw", "borrow", "repay", "liquidate", "bankruptcy", "accrue", "collect_fees", "close_balance"] + list(extra_ops)
+    return {
+        "models": LEDGER_MODELS,
+        "drivers": LEDGER_DRIVERS,
+        "nontrivial": succ(ops),
+        "rule": "each executed instruction is one evaluation; non-trivial = successful ledger instruction; distinct by (instruction, arguments)",
+        "min_nontrivial": 200,
+    }
+
+
 PROPS = {
+    "C01": ledger_prop(),
+    "C02": ledger_prop(),
+    "C03": ledger_prop(),
+    "C06": ledger_prop(),
+    "C16": ledger_prop(),
+    "C17": ledger_prop(),
     "C15": {
         "models": [
             {"name": "panic", "module": "Panic.tla", "cfg": {"quick": "MC_PanicQuick.cfg", "thorough": "MC_PanicThorough.cfg"},
